@@ -32,6 +32,10 @@ class _Continue(Exception):
     pass
 
 
+class _Goto(Exception):
+    """args[0]: label name"""
+
+
 class _Return(Exception):
     def __init__(self, v):
         self.v = v
@@ -119,6 +123,9 @@ def _wrap(types, n, v):
         if t.get("sg") and v >= 1 << (w - 1):
             v -= 1 << w
     return v
+
+
+RESOLVE = {"fn": None}
 
 
 class Folder:
@@ -209,6 +216,13 @@ class Folder:
                     o2, w2 = lay[p2]
                     if not (o2 + w2 <= off or off + w <= o2):
                         del rec[p2]
+        if isinstance(v, dict):
+            # a whole sub-record: its leaves
+            for k2 in [k3 for k3 in rec if k3.startswith(path + ".")]:
+                del rec[k2]
+            for k2, v2 in v.items():
+                rec[path + "." + k2] = v2
+            return
         rec[path] = v
 
     def layout(self, t):
@@ -273,6 +287,8 @@ class Folder:
                 return self.calls[cal](*args)
             if self.inline and cal:
                 f = self.fn.tu.func(cal)
+                if (f is None or getattr(f, "body", None) is None) and RESOLVE.get("fn") is not None:
+                    f = RESOLVE["fn"](cal)      # a helper defined in another unit of the build (library code called by a tool)
                 if f is not None and getattr(f, "body", None) is not None and self.depth < 12:
                     args = [self.ev(a) for a in n["c"][1:]]
                     sub = Folder(f, calls=self.calls, max_steps=self.max_steps, depth=self.depth + 1, inline=True)
@@ -526,7 +542,7 @@ class Folder:
             if c:
                 self.st(c[-1])
         elif k == "GotoStmt":
-            raise NotConst("goto")
+            raise _Goto(s.get("label"))
         else:
             self.ev(s)
 
@@ -630,7 +646,55 @@ class Folder:
         self.env = {p["d"]: (dict(v) if isinstance(v, dict) else v) for p, v in zip(self.fn.params, args)}
         self.steps = steps
         try:
-            self.st(self.fn.body)
+            try:
+                self.st(self.fn.body)
+            except _Goto as g:
+                self.resume_at(g.args[0])
         except _Return as r:
             return r.v
         return None
+
+    def resume_at(self, label):
+        """continue at a label: run the labelled statement, then whatever follows it at each enclosing level (a goto may lead
+        into the branch of another case; leaving a switch by break ends that level).  Gotos into loops are not supported."""
+        for _ in range(64):
+            lab = [x for x in self.fn.walk() if x.get("k") == "LabelStmt" and x.get("label") == label]
+            if len(lab) != 1:
+                raise NotConst("label %s" % label)
+            try:
+                node = lab[0]
+                sub = kids(node)
+                if sub:
+                    self.st(sub[-1])
+                self.after(node)
+                return
+            except _Goto as g:
+                label = g.args[0]
+        raise NotConst("goto chain")
+
+    def after(self, child):
+        par = self.fn.parent(child)
+        while par is not None and par is not self.fn.body.get("__none__"):
+            k = par.get("k")
+            if k == "CompoundStmt":
+                sibs = kids(par)
+                idx = [i for i, x in enumerate(sibs) if x is child][0]
+                gp = self.fn.parent(par)
+                try:
+                    for s2 in sibs[idx + 1:]:
+                        self.st(s2)
+                except _Break:
+                    if gp is not None and gp.get("k") == "SwitchStmt":
+                        child, par = gp, self.fn.parent(gp)
+                        continue
+                    raise
+                if par is self.fn.body:
+                    return
+                if gp is not None and gp.get("k") == "SwitchStmt":
+                    child, par = gp, self.fn.parent(gp)
+                    continue
+            elif k in ("WhileStmt", "DoStmt", "ForStmt"):
+                raise NotConst("goto into a loop")
+            elif k == "FunctionDecl":
+                return
+            child, par = par, self.fn.parent(par)
